@@ -32,6 +32,13 @@ def run(tier, seed):
                                  "--cpus", "2", "--keys", str(rng.choice([3, 4])), "--ttl", "1",
                                  "--end", "leak", "--flushpct", "10", "--maximages", "700",
                                  "--nested", "10" if tier == "quick" else "25"]))
+    # records that fill their last block exactly, packed next to each other on a small device: the extent
+    # arithmetic of the repairs (stale duplicates, pending markers) at its boundary
+    for i in range(4 if tier == "quick" else 20):
+        jobs.append(("x%d" % i, ["--seed", str(rng.randrange(1 << 30)), "--steps", "45", "--fmt", str([3, 2, 1, 3][i % 4]),
+                                 "--blocks", str(rng.choice([27, 30])), "--cpus", "2", "--keys", "3", "--ttl", "1",
+                                 "--end", "leak", "--flushpct", "30", "--maximages", "600", "--edges", "85", "--exact", "1",
+                                 "--nested", "10" if tier == "quick" else "25"]))
     jobs += ce.full_device_jobs(rng, 4 if tier == "quick" else 24, extra=["--nested", "10" if tier == "quick" else "25"], maximages="500")
     # MC: recovery as interruptible steps (journal replay, scan, retirement in chunks of JMax), crashes at
     # any point, nested; the variant with the pre-fix retirement order must fail (model sanity)
